@@ -39,13 +39,23 @@ UNIT = {
   'struct PageTree': {'kind': 'decl', 'file': T, 'header': r'^pub struct PageTree$'},
   'struct Page': {'kind': 'decl', 'file': T, 'header': r'^pub struct Page$'},
 
+  'Ref::new': {'kind': 'fn', 'file': M, 'container': r'^impl<T> Ref<T>$', 'name': 'new', 'props': ['C07'],
+      'ensures': [('ref_new', 'r.inner == inner')]},
+  'Ref::get_inner': {'kind': 'fn', 'file': M, 'container': r'^impl<T> Ref<T>$', 'name': 'get_inner', 'props': ['C07'],
+      'ensures': [('ref_get_inner', 'r == self.inner')]},
+  'RcRef::from_primitive': {'kind': 'fn', 'file': M, 'container': r'^impl<T: Object \+ std::fmt::Debug \+ DataSize> Object for RcRef<T>$',
+      'name': 'from_primitive', 'props': ['C07'],
+      'ensures': [('reference_denotes_stored_node', 'denotes(resolve.world(), p, r)')]},
   # ---------------------------------------------------------------- Deref impls (trait methods: no canary twin possible)
   'RcRef::deref': {'kind': 'fn', 'file': M, 'container': r'^impl<T> Deref for RcRef<T>$', 'name': 'deref',
       'props': ['C07'], 'canary': False,
       'ensures': [('deref_is_data', '*r == *self.data')]},
   'PagesRc::deref': {'kind': 'fn', 'file': T, 'container': r'^impl Deref for PagesRc$', 'name': 'deref',
       'props': ['C07'], 'canary': False,
-      'ensures': [('deref_is_tree', '*r == self.tree()')],
+      'ensures': [('deref_is_tree', '*r == self.tree()'),
+                  # the wrapper's type invariant, handed to the caller: a deref coercion `parent = p` then needs no ghost
+                  # text at the assignment (whatever its spelling) for the structural `decreases *parent` of `inherit`
+                  ('deref_is_tree_node', '*self.rc().data is Tree')],
       'rewrites': [{'rule': 'R1', 'find': 'match *self.0 {', 'replace': 'proof { use_type_invariant(self); } match *self.0 {'}]},
   'PageRc::deref': {'kind': 'fn', 'file': T, 'container': r'^impl Deref for PageRc$', 'name': 'deref',
       'props': ['C07'], 'canary': False,
@@ -54,12 +64,16 @@ UNIT = {
   # constructors: the type invariant is a proof obligation at `PagesRc(node)` / `PageRc(node)`
   'PagesRc::from_primitive': {'kind': 'fn', 'file': T, 'container': r'^impl Object for PagesRc$', 'name': 'from_primitive',
       'props': ['C07'],
-      'ensures': [('ctor_is_tree', 'r matches Ok(x) ==> x.inv()')],
+      'ensures': [('ctor_is_tree', 'r matches Ok(x) ==> x.inv()'),
+                  ('ctor_ok_iff_stored_tree', 'r is Ok <==> names_stored(resolve.world(), p, false)'),
+                  ('ctor_hands_out_stored_node', 'r matches Ok(x) ==> denotes(resolve.world(), p, Ok(x.rc()))')],
       'rewrites': [{'rule': 'R3', 'find': 'PdfError::WrongDictionaryType {expected: "Pages".into(), found: "Page".into()}',
                     'replace': 'PdfError::WrongDictionaryType'}]},
   'PageRc::from_primitive': {'kind': 'fn', 'file': T, 'container': r'^impl Object for PageRc$', 'name': 'from_primitive',
       'props': ['C07'],
-      'ensures': [('ctor_is_leaf', 'r matches Ok(x) ==> x.inv()')],
+      'ensures': [('ctor_is_leaf', 'r matches Ok(x) ==> x.inv()'),
+                  ('ctor_ok_iff_stored_leaf', 'r is Ok <==> names_stored(resolve.world(), p, true)'),
+                  ('ctor_hands_out_stored_node', 'r matches Ok(x) ==> denotes(resolve.world(), p, Ok(x.rc()))')],
       'rewrites': [{'rule': 'R3', 'find': 'PdfError::WrongDictionaryType {expected: "Page".into(), found: "Pages".into()}',
                     'replace': 'PdfError::WrongDictionaryType'}]},
 
@@ -93,17 +107,21 @@ UNIT = {
   # ---------------------------------------------------------------- inheritance
   'inherit': {'kind': 'fn', 'file': T, 'container': None, 'name': 'inherit',
       'props': ['C07'],
-      'attrs': ['#[verifier::loop_isolation(false)]'],
+      'attrs': ['#[verifier::loop_isolation(false)]', '#[verifier::allow_complex_invariants]'],
       'requires': ["forall|p: &'a PageTree| f.requires((p,))"],
       'ensures': [('nearest_ancestor', 'forall|sel: spec_fn(PageTree) -> Option<T>| #![trigger computes(f, sel)] #![trigger nearest(*parent, sel)] computes(f, sel) ==> r == Ok::<Option<T>, PdfError>(nearest(*parent, sel))'),
                   ('never_err', 'r is Ok')],
       'rewrites': [
-          {'rule': 'R1', 'find': 'loop {', 'replace': 'let ghost start = *parent; loop {'},
-          {'rule': 'R1', 'find': '(Some(ref p), None) => parent = p,',
-           'replace': '(Some(ref p), None) => { proof { use_type_invariant(p); } parent = p },'},
+          # shape-only: the ghost start node is declared at the top of the body, whatever statements follow
+          {'rule': 'R1', 'regex': r'\A\s*\{', 'replace': '{ let ghost start = *parent; let ghost mut plain = true;'},
+          # accumulator shape of the same walk (`let mut <acc> = None; loop {`): the invariant is keyed on the captured name
+          {'rule': 'R1', 'regex': r'let\s+mut\s+(\w+)\s*(:\s*Option<T>\s*)?=\s*None;\s*loop\s*\{', 'count': '*',
+           'replace': r'let mut \1 \2= None; proof { plain = false; } loop invariant_except_break '
+                      r'forall|sel: spec_fn(PageTree) -> Option<T>| #![trigger computes(f, sel)] computes(f, sel) ==> '
+                      r'(match \1 { Some(v) => nearest(start, sel) == Some(v), None => nearest(*parent, sel) == nearest(start, sel) }), //@L walk_keeps_first_hit\n {'},
       ],
       'loops': {1: {'invariant': ["forall|p: &'a PageTree| f.requires((p,))",
-                                  ('walk_keeps_answer', 'forall|sel: spec_fn(PageTree) -> Option<T>| #![trigger computes(f, sel)] computes(f, sel) ==> nearest(*parent, sel) == nearest(start, sel)')],
+                                  ('walk_keeps_answer', 'plain ==> forall|sel: spec_fn(PageTree) -> Option<T>| #![trigger computes(f, sel)] computes(f, sel) ==> nearest(*parent, sel) == nearest(start, sel)')],
                     'decreases': '*parent'}}},
   'Page::media_box': {'kind': 'fn', 'file': T, 'container': r'^impl Page$', 'name': 'media_box',
       'props': ['C07'],
